@@ -4,6 +4,7 @@ import sys
 sys.path.insert(0, os.path.dirname(os.path.abspath(__file__)))
 import core  # noqa: E402
 import genes  # noqa: E402  (kernel II: gene bookkeeping; contexts at specification level, coq/theories/Genes/Ctx.v)
+import groups  # noqa: E402  (kernel III: groups and identifier changes; contexts at specification level, Groups/Ctx.v)
 
 if __name__ == "__main__":
     sys.exit(core.main(
@@ -19,5 +20,7 @@ if __name__ == "__main__":
         manifest_trusted=["undo closures are modelled as data (Core/Model.v `undo`, `run_undo`)",
                           "genes kernel: contexts are modelled at specification level (Exit puts the saved state back); "
                           "the comparison of the real objects at __enter__ and after __exit__ is the Coq function "
-                          "`restored` of Genes/Check.v evaluated on the harness's observations"],
-        extra=[genes.run_ctx], extra_targets=genes.EXTRA_TARGETS))
+                          "`restored` of Genes/Check.v evaluated on the harness's observations",
+                          "groups kernel: likewise at specification level (Groups/Ctx.v); `restored` / `groups_restored` of "
+                          "Groups/Check.v compare the observations at __enter__ and after __exit__"],
+        extra=[genes.run_ctx, groups.run_ctx], extra_targets=genes.EXTRA_TARGETS + groups.EXTRA_TARGETS))
